@@ -376,3 +376,108 @@ def compare_impl(case, o, rp):
                 out.append(("C08.loop lambda_vecs_LP_", f"column {t}: {lpt[str(t)]} vs {[float(v) for v in lam]}"))
                 break
     return out
+
+
+# ---------------------------------------------------------------------------------------------------------------------
+#  solve_linprog: recorded scipy calls vs Lean model of the LP construction (Model/LinProg.lean over LinProgGen.lean)
+# ---------------------------------------------------------------------------------------------------------------------
+
+def lp_selection(rp):
+    n = min(len(rp.pairs), len(rp.lp_stores))
+    return sorted({0, n // 2, n - 1}) if n else []
+
+
+def lp_lines(rp):
+    from . import proto
+    ls = []
+    for k in lp_selection(rp):
+        n = rp.lp_stores[k]
+        errs = [e for e, _ in rp.hs[:n]]
+        gams = [[g[j] for _, g in rp.hs[:n]] for j in range(rp.nC)]
+        pr, du = rp.pairs[k]
+        x = [F(v) for v in pr["x"]]
+        y_impl = [F(v) for v in du["x"]]
+        y = [y_impl[j] for j in rp.perm] + [y_impl[-1]]
+        head = f"{proto.rat(rp.B)} {proto.lst(errs)} {proto.mat(gams)} {proto.lst(rp.c)}"
+        ls.append("linprog.build " + head)
+        ls.append(f"linprog.check {head} {proto.lst(x)} {proto.lst(y)}")
+    return ls
+
+
+def _close(a, b, tol=1e-12):
+    return abs(float(a) - float(b)) <= tol * max(1.0, abs(float(b)))
+
+
+def lp_compare(rp, mo):
+    """-> list of (kind, relation, message); kind 'model' = Lean model vs the recorded call (correspondence)"""
+    from . import proto
+    out = []
+    perm = rp.perm
+    nC = rp.nC
+    for k, (lb, lc) in zip(lp_selection(rp), zip(mo[0::2], mo[1::2])):
+        pr, du = rp.pairs[k]
+        n = rp.lp_stores[k]
+        if lb == "bad-op" or lc == "bad-op":
+            out.append(("harness", None, "linprog model: bad-op"))
+            continue
+        t = lb.split(" ")
+        c, Aub, bub, Aeq, beq = proto.p_list(t[0]), proto.p_mat(t[1]), proto.p_list(t[2]), proto.p_mat(t[3]), proto.p_list(t[4])
+        dc, dA, db, free = proto.p_list(t[5]), proto.p_mat(t[6]), proto.p_list(t[7]), [v == 1 for v in proto.p_list(t[8])]
+
+        def vec_ok(model, rec):
+            return rec is not None and len(model) == len(rec) and all(_close(r, m) for m, r in zip(model, rec))
+
+        def mat_ok(model, rec):
+            return rec is not None and len(model) == len(rec) and all(vec_ok(m, r) for m, r in zip(model, rec))
+        rel = "C08.linprog construction (c, A_ub, b_ub, A_eq, b_eq / dual_c, dual_A_ub, dual_b_ub, dual_bounds)"
+        # primal: rows of A_ub / entries of b_ub are in the implementation's constraint order
+        if not vec_ok(c, pr["c"]):
+            out.append(("model", rel, f"LP {k}: c = {pr['c']} vs model {[float(v) for v in c]}"))
+        if not mat_ok(Aub, None if pr["A_ub"] is None else [pr["A_ub"][j] for j in perm] if len(pr["A_ub"]) == nC else pr["A_ub"]):
+            out.append(("model", rel, f"LP {k}: A_ub = {pr['A_ub']} vs model (constraint order {perm}) {[[float(v) for v in r] for r in Aub]}"))
+        if not vec_ok(bub, pr["b_ub"]):
+            out.append(("model", rel, f"LP {k}: b_ub = {pr['b_ub']} vs model {[float(v) for v in bub]}"))
+        if not mat_ok(Aeq, pr["A_eq"]) or not vec_ok(beq, pr["b_eq"]):
+            out.append(("model", rel, f"LP {k}: A_eq, b_eq = {pr['A_eq']}, {pr['b_eq']} vs model {[[float(v) for v in r] for r in Aeq]}, {[float(v) for v in beq]}"))
+        if pr["bounds"] is not None:
+            out.append(("model", rel, f"LP {k}: the primal call passes bounds {pr['bounds']} (model: scipy default x >= 0)"))
+        # dual: the first nC variables (columns of dual_A_ub, entries of dual_c, bounds) are in the implementation's order
+        def unperm_cols(row):
+            return [row[j] for j in perm] + list(row[nC:]) if len(row) == nC + 1 else row
+        if du["A_eq"] is not None or du["b_eq"] is not None:
+            out.append(("model", rel, f"LP {k}: the dual call has equality rows"))
+        if not vec_ok(dc, None if du["c"] is None else unperm_cols(du["c"])):
+            out.append(("model", rel, f"LP {k}: dual_c = {du['c']} vs model {[float(v) for v in dc]}"))
+        if not mat_ok(dA, None if du["A_ub"] is None else [unperm_cols(r) for r in du["A_ub"]]):
+            out.append(("model", rel, f"LP {k}: dual_A_ub = {du['A_ub']} vs model {[[float(v) for v in r] for r in dA]}"))
+        if not vec_ok(db, du["b_ub"]):
+            out.append(("model", rel, f"LP {k}: dual_b_ub = {du['b_ub']} vs model {[float(v) for v in db]}"))
+        bd = du["bounds"]
+        rec_free = None if bd is None or len(bd) != nC + 1 else [(b[0] is None and b[1] is None) for b in unperm_cols(bd)]
+        rec_nonneg = None if bd is None or len(bd) != nC + 1 else [(b[0] == 0 and b[1] is None) for b in unperm_cols(bd)]
+        if rec_free is None or rec_free != free or any((not f) and (not nn) for f, nn in zip(rec_free, rec_nonneg)):
+            out.append(("model", rel, f"LP {k}: dual_bounds = {bd} vs model free flags {free}"))
+        # the recorded solutions against the model's feasibility / objective (exact residuals of the float solution)
+        t = lc.split(" ")
+        pobj, pub, peq, pneg = (proto.p_rat(v) for v in t[1:5])
+        dobj, dub, dneg = (proto.p_rat(v) for v in t[6:9])
+        rel2 = "C08.linprog solution (model feasibility + objective of the recorded Q_LP / lambda_LP; weak duality certificate)"
+        scale = max(1.0, float(rp.B))
+        if max(float(pub), float(peq), float(pneg)) > 1e-7 * scale:
+            out.append(("model", rel2, f"LP {k}: recorded primal solution violates the modelled constraints: residuals ub {float(pub)} eq {float(peq)} "
+                                       f"neg {float(pneg)}"))
+        if not _close(pobj, pr["fun"], 1e-9):
+            out.append(("model", rel2, f"LP {k}: primal objective {pr['fun']} vs model c.x = {float(pobj)}"))
+        if max(float(dub), float(dneg)) > 1e-7 * scale:
+            out.append(("model", rel2, f"LP {k}: recorded dual solution violates the modelled constraints: residuals ub {float(dub)} neg {float(dneg)}"))
+        if not _close(dobj, du["fun"], 1e-9):
+            out.append(("model", rel2, f"LP {k}: dual objective {du['fun']} vs model dual_c.y = {float(dobj)}"))
+        if abs(float(pobj) + float(dobj)) > 1e-7 * scale:
+            out.append(("model", rel2, f"LP {k}: primal optimum {float(pobj)} != -(dual optimum) {-float(dobj)}: the pair is not certified "
+                                       f"optimal by weak duality (lp_weak_duality)"))
+        # model vs first principles (our own machinery): objective = err(Q) + B t, -dual objective = mu
+        x = [F(v) for v in pr["x"]]
+        want = sum((q * e for q, (e, _) in zip(x[:-1], rp.hs[:n])), F(0)) + rp.B * x[-1]
+        if want != pobj or F(du["x"][-1]) != -dobj:
+            out.append(("harness", None, f"linprog model objective {pobj}/{dobj} != first principles {want}/{-F(du['x'][-1])}"))
+    return out
